@@ -10,3 +10,4 @@ import SpoxModel.Props.C03
 #print axioms C03.non_var_output_typeerror
 #print axioms C03.valid_request_builds
 #print axioms C03.discover_all_arguments_spec
+#print axioms C03.discover_all_arguments_spec_checked
